@@ -273,7 +273,10 @@ class FakeSnowflakeCursor:
         # duckdb has no flag for it, and a second BEGIN would abort an open transaction: outside a transaction every
         # statement gets a new transaction id, inside one the id stays the same
         txid = "SELECT txid_current()"
-        return self._duck_conn.execute(txid).fetchall() == self._duck_conn.execute(txid).fetchall()
+        try:
+            return self._duck_conn.execute(txid).fetchall() == self._duck_conn.execute(txid).fetchall()
+        except duckdb.ConnectionException as e:
+            raise snowflake.connector.errors.DatabaseError(msg=e.args[0], errno=250002, sqlstate="08003") from None
 
     def _transform_explode(self, expression: exp.Expression) -> list[exp.Expression]:
         # Applies transformations that require splitting the expression into multiple expressions
@@ -290,10 +293,11 @@ class FakeSnowflakeCursor:
         no_database, no_schema = checks.is_unqualified_table_expression(transformed)
 
         table_exists_sql = None
-        if (commented := transformed.args.get("table_comment")) and not isinstance(transformed, exp.Create):
-            # COMMENT ON TABLE / ALTER TABLE SET COMMENT have been replaced by a no-op carrying the comment,
-            # so check the table they refer to here
-            commented_table = cast(exp.Table, commented[0])
+        commented = transformed.args.get("table_comment")
+        if (commented and not isinstance(transformed, exp.Create)) or transformed.args.get("col_comments_table"):
+            # COMMENT ON TABLE / ALTER TABLE SET COMMENT / ALTER TABLE ALTER COLUMN COMMENT have been replaced by a
+            # no-op carrying the comment, so check the table they refer to here
+            commented_table = cast(exp.Table, commented[0] if commented else transformed.args["col_comments_table"])
             no_database, no_schema = not commented_table.catalog, not commented_table.db
             table_exists_sql = f"DESCRIBE {commented_table.sql(dialect='duckdb')}"
 
